@@ -625,15 +625,27 @@ def m_array_map(ctx, args):
     v = val(ctx, args[0])
     while v[0] in ("copied", "box"):
         v = v[1]
+    def per_iter(elems):
+        puid = next(eng.nuid)
+        out = []
+        for kk, e in enumerate(elems):
+            eng.binders.append(puid)
+            eng.unroll[puid] = (kk, len(elems), None)
+            try:
+                out.append(call_closure(ctx, args[1], [e]))
+            finally:
+                eng.binders.pop()
+                eng.unroll.pop(puid, None)
+        return ("array", tuple(out))
     if v[0] == "array":
-        return ("array", tuple(call_closure(ctx, args[1], [e]) for e in v[1]))
+        return per_iter(list(v[1]))
     n = vec_len(eng, v)
     t = ctx.arg_ty(0)
     if n is None and t is not None and strip_refs(t)[0] == "array":
         n = strip_refs(t)[2]
         n = n[1] if isinstance(n, tuple) and n and n[0] == "int" else n
     if isinstance(n, int) and n <= 64:
-        return ("array", tuple(call_closure(ctx, args[1], [eng.index_value(v, ("int", i))]) for i in range(n)))
+        return per_iter([eng.index_value(v, ("int", i)) for i in range(n)])
     return realise(ctx, ("map", args[1], next(eng.nuid), ("vals", v)))
 
 
@@ -1061,12 +1073,19 @@ def m_for_each(ctx, args):
     shape = a[1]
     n = shape_len(eng, shape)
     if isinstance(n, int) and n <= 8 and unrollable(shape):
+        puid = next(eng.nuid)
         for kk in range(n):
             e, _ = elem_of(shape, 0)
             sub = {("idx", 0): ("int", kk)}
             for j, lf in enumerate(leaves_of(shape)):
                 sub[("elem", 0, j)] = eng.src_at(lf, ("int", kk))
-            call_closure(ctx, args[1], [instantiate_elem(eng, ctx, eng.subst(e, sub))])
+            eng.binders.append(puid)
+            eng.unroll[puid] = (kk, n, shape)
+            try:
+                call_closure(ctx, args[1], [instantiate_elem(eng, ctx, eng.subst(e, sub))])
+            finally:
+                eng.binders.pop()
+                eng.unroll.pop(puid, None)
         return UNIT
     from .sym import LoopInfo, UNDEF
     uid = next(eng.nuid)
@@ -1126,13 +1145,20 @@ def m_any_all(ctx, args):
     if isinstance(n, int) and n <= 8 and unrollable(shape):
         # literal collection: plain disjunction / conjunction
         acc = 0
+        puid = next(eng.nuid)
         for kk in range(n):
             e, _ = elem_of(shape, 0)
             sub = {("idx", 0): ("int", kk)}
             for j, lf in enumerate(leaves_of(shape)):
                 sub[("elem", 0, j)] = eng.src_at(lf, ("int", kk))
-            v = instantiate_elem(eng, ctx, eng.subst(e, sub))
-            c = eng.tobdd(call_closure(ctx, args[1], [v]))
+            eng.binders.append(puid)
+            eng.unroll[puid] = (kk, n, shape)
+            try:
+                v = instantiate_elem(eng, ctx, eng.subst(e, sub))
+                c = eng.tobdd(call_closure(ctx, args[1], [v]))
+            finally:
+                eng.binders.pop()
+                eng.unroll.pop(puid, None)
             if is_all:
                 c = eng.bdd.NOT(c)
             acc = eng.bdd.OR(acc, c)
@@ -1255,7 +1281,7 @@ def m_collect(ctx, args):
     return ("collected", vec, ty_str(dst) if dst else "?")
 
 
-@model("std::iter::Iterator::sum")
+@model("std::iter::Iterator::sum", "std::iter::Sum::sum")
 def m_sum(ctx, args):
     a = as_iter(ctx, args[0], 0)
     if a[0] != "iter":
@@ -1412,11 +1438,7 @@ def m_next(ctx, args):
             if lf[0] != "mutrefs":
                 sub[("elem", uid, j)] = eng.src_at(lf, ("int", kk))
         e = eng.subst(e, sub)
-        eng.binders.pop()           # closures of map() adapters run outside the loop binder: the element is concrete
-        try:
-            body = instantiate_elem(eng, ctx, e)
-        finally:
-            eng.binders.append(uid)
+        body = instantiate_elem(eng, ctx, e)     # draws made here are tagged with the concrete iteration (fresh_ctx)
         return some(body)
     shape = None
     if cur[0] == "iter":
